@@ -37,42 +37,88 @@ func ruleR07a(c *Ctx) {
 		}
 		return -1
 	}
-	init := flowState{}
-	for i := range stages {
-		init[fmt.Sprint(i)] = 1 // 1 = possibly not yet run
-	}
-	// the per-file stages run inside the loop over the bundle's files: they are required whenever the loop body runs
-	var missing []string
-	var mpos token.Pos
-	res := runFlow(fd.Body, nr.forInfo(info), init, func(n ast.Node, st flowState, report bool) flowState {
-		ast.Inspect(n, func(x ast.Node) bool {
-			if _, ok := x.(*ast.FuncLit); ok {
-				return false
-			}
-			if call, ok := x.(*ast.CallExpr); ok {
-				if i := stageOf(call); i >= 0 {
-					delete(st, fmt.Sprint(i))
-					st[fmt.Sprint(i)] = 0
+	// helpers of Compile (unexported functions of the package it calls): a call to one counts for the stages
+	// that the helper has run on every path on which it returns a nil error
+	helpers := c.withHelpers("", fd, 2)
+	guaranteed := map[*types.Func]map[int]bool{}
+	var analyse func(body *ast.BlockStmt, self *types.Func) map[int]bool // stages possibly missing at a success return
+	analyse = func(body *ast.BlockStmt, self *types.Func) map[int]bool {
+		init := flowState{}
+		for i := range stages {
+			init[fmt.Sprint(i)] = 1 // 1 = possibly not yet run
+		}
+		missingAt := map[int]bool{}
+		runFlow(body, nr.forInfo(info), init, func(n ast.Node, st flowState, report bool) flowState {
+			ast.Inspect(n, func(x ast.Node) bool {
+				if _, ok := x.(*ast.FuncLit); ok {
+					return false
+				}
+				if call, ok := x.(*ast.CallExpr); ok {
+					if i := stageOf(call); i >= 0 {
+						st[fmt.Sprint(i)] = 0
+					}
+					if cal := calleeFunc(call, info); cal != nil && cal != self {
+						for i := range guaranteed[cal] {
+							st[fmt.Sprint(i)] = 0
+						}
+					}
+				}
+				return true
+			})
+			if rs, ok := n.(*ast.ReturnStmt); ok && report && len(rs.Results) >= 1 {
+				if id, ok := ast.Unparen(rs.Results[len(rs.Results)-1]).(*ast.Ident); ok && id.Name == "nil" {
+					for i := range stages {
+						if st[fmt.Sprint(i)]&1 != 0 {
+							missingAt[i] = true
+						}
+					}
 				}
 			}
-			return true
+			return st
 		})
-		if rs, ok := n.(*ast.ReturnStmt); ok && report && len(rs.Results) == 2 {
-			if id, ok := ast.Unparen(rs.Results[1]).(*ast.Ident); ok && id.Name == "nil" {
-				for i, s := range stages {
-					if i < 2 {
-						continue // per-file stages: checked structurally below
+		return missingAt
+	}
+	for i := len(helpers) - 1; i >= 1; i-- { // callees before callers (withHelpers lists breadth-first)
+		hd := helpers[i]
+		hfn, _ := info.Defs[hd.Name].(*types.Func)
+		if hfn == nil || hd.Type.Results == nil {
+			continue
+		}
+		miss := analyse(hd.Body, hfn)
+		g := map[int]bool{}
+		for si := range stages {
+			if !miss[si] {
+				// only stages the helper actually calls (directly or through its own helpers)
+				calls := false
+				ast.Inspect(hd.Body, func(x ast.Node) bool {
+					if call, ok := x.(*ast.CallExpr); ok {
+						if stageOf(call) == si {
+							calls = true
+						}
+						if cal := calleeFunc(call, info); cal != nil && guaranteed[cal][si] {
+							calls = true
+						}
 					}
-					if st[fmt.Sprint(i)]&1 != 0 {
-						missing = append(missing, s.pkg+"."+s.name)
-						mpos = rs.Pos()
-					}
+					return true
+				})
+				if calls {
+					g[si] = true
 				}
 			}
 		}
-		return st
-	})
-	_ = res
+		guaranteed[hfn] = g
+	}
+	var missing []string
+	var mpos token.Pos
+	missAt := analyse(fd.Body, nil)
+	for i, s := range stages {
+		if i < 2 {
+			continue // per-file stages: checked structurally below
+		}
+		if missAt[i] {
+			missing = append(missing, s.pkg+"."+s.name)
+		}
+	}
 	c.check(len(missing) == 0, "R07a", "soy.Bundle.Compile#passes-before-success", fd.Pos(),
 		"every path that returns success has run CheckDataRefs, SetGlobals and ProcessMessages",
 		"a path returns success without running "+strings.Join(missing, ", ")+": bundles violating the data-reference rules compile")
@@ -105,54 +151,66 @@ func ruleR07a(c *Ctx) {
 		c.fatalf("anchor: SSA for (*Bundle).Compile not found")
 		return
 	}
+	helperFns := map[*ssa.Function]bool{}
+	ssaFuncs := []*ssa.Function{f}
+	for _, hd := range helpers[1:] {
+		for _, cand := range allPkgFunctions(c, c.SSA[""]) {
+			if cand.Syntax() == ast.Node(hd) && len(guaranteed[typesFuncOf(cand)]) > 0 {
+				helperFns[cand] = true
+				ssaFuncs = append(ssaFuncs, cand)
+			}
+		}
+	}
 	n := 0
-	for _, b := range f.Blocks {
-		for _, in := range b.Instrs {
-			ci, ok := in.(ssa.CallInstruction)
-			if !ok {
-				continue
-			}
-			sc := ci.Common().StaticCallee()
-			name := ""
-			if sc != nil {
-				name = sc.Name()
-			}
-			sig := ci.Common().Signature()
-			eidx := -2
-			for i := 0; i < sig.Results().Len(); i++ {
-				if isErrorType(sig.Results().At(i).Type()) {
-					eidx = i
+	for _, sf := range ssaFuncs {
+		for _, b := range sf.Blocks {
+			for _, in := range b.Instrs {
+				ci, ok := in.(ssa.CallInstruction)
+				if !ok {
+					continue
 				}
-			}
-			if eidx == -2 {
-				continue
-			}
-			isStage := false
-			for _, s := range stages {
-				if name == s.name {
-					isStage = true
+				sc := ci.Common().StaticCallee()
+				name := ""
+				if sc != nil {
+					name = sc.Name()
 				}
-			}
-			if !isStage && sc != nil {
-				continue
-			}
-			// dynamic calls returning error are the user's extra parse passes
-			if sig.Results().Len() == 1 {
-				eidx = -1
-			}
-			n++
-			what := name
-			if what == "" {
-				what = "parse pass callback"
-			}
-			ok2, ret, why := errHandled(c, nr, ci, eidx)
-			key := fmt.Sprintf("soy.Bundle.Compile error-of %s#%d", what, n)
-			if ok2 && len(ret) > 0 {
-				c.ok("R07a", key, in.Pos(), "the error is returned to the caller of Compile")
-			} else if ok2 {
-				c.ok("R07a", key, in.Pos(), "the error is tested and raises")
-			} else {
-				c.bad("R07a", key, in.Pos(), "the error of "+what+" is not honoured ("+why+"): Compile can report success for a bundle the pass rejected")
+				sig := ci.Common().Signature()
+				eidx := -2
+				for i := 0; i < sig.Results().Len(); i++ {
+					if isErrorType(sig.Results().At(i).Type()) {
+						eidx = i
+					}
+				}
+				if eidx == -2 {
+					continue
+				}
+				isStage := false
+				for _, s := range stages {
+					if name == s.name {
+						isStage = true
+					}
+				}
+				if !isStage && sc != nil && !(helperFns[sc] && len(guaranteed[typesFuncOf(sc)]) > 0) {
+					continue
+				}
+				// dynamic calls returning error are the user's extra parse passes
+				if sig.Results().Len() == 1 {
+					eidx = -1
+				}
+				n++
+				what := name
+				if what == "" {
+					what = "parse pass callback"
+				}
+				ok2, ret, why := errHandled(c, nr, ci, eidx)
+				key := fmt.Sprintf("soy.Bundle.Compile error-of %s#%d", what, n)
+				if ok2 && len(ret) > 0 {
+					c.ok("R07a", key, in.Pos(), "the error is returned to the caller of Compile")
+				} else if ok2 {
+					c.ok("R07a", key, in.Pos(), "the error is tested and raises")
+				} else {
+					c.bad("R07a", key, in.Pos(), "the error of "+what+" is not honoured ("+why+"): Compile can report success for a bundle the pass rejected")
+				}
 			}
 		}
 	}
@@ -698,4 +756,12 @@ func scopeBinderMethods(c *Ctx, rel, typeName string) map[*types.Func]bool {
 		}
 	}
 	return out
+}
+
+func typesFuncOf(f *ssa.Function) *types.Func {
+	if f == nil {
+		return nil
+	}
+	fn, _ := f.Object().(*types.Func)
+	return fn
 }
